@@ -232,6 +232,11 @@ func checkMain(args []string) int {
 	}
 	known := loadKnown()
 	inconclusive := []string{}
+	for _, d := range l.dropped {
+		if strings.HasPrefix(d, "zz_verif_"+strings.ToLower(prop)) {
+			inconclusive = append(inconclusive, "harness file "+d+" does not type-check against the current tree and was dropped: coverage of this property is reduced")
+		}
+	}
 
 	// collect replay inputs
 	type pending struct {
